@@ -4,18 +4,21 @@ from scipy.linalg import expm
 from hypothesis import strategies as st
 
 import pytenet as ptn
-from core import Part, require
+from core import Part, require, known_listed, Violation
+from lanczos_monitor import LanczosMonitor
 from gen_dyn import complete_case, ham_and_state, build_ham, dense_ham, dense_state
 from gen_qn import build_mps
 from oracle_dense import schmidt_values
 
 ID = 'C09'
+KEY_F5 = 'tdvp-local-exponential-past-undetected-lanczos-breakdown'
 RULE = ('exactness: (Hermitian MPO as in C08, L 1..5, d 2..4, random state on a complete manifold constructed from the sector counts: bond i carries each charge q with multiplicity '
         'min(n_left(q), n_right(q)); dt imaginary / real / complex with |dt| ||H|| steps <= 3; 1..4 steps; both integrators; local Krylov dimension >= largest local problem). Judged only '
         'where every bond is saturated on one side for all charge blocks simultaneously (see DESIGN C09: otherwise projector splitting is not exact although the manifold is complete). '
         'reversibility: single-site steps with dt then -dt on full-rank representations (zero-tolerance compression first; smallest Schmidt value > 1e-3). '
         'Non-trivial: ||(expm(-dt n H) - 1) psi0|| > 1e-3 and sector dimension >= 3 (exactness); same displacement and a bond >= 2 (reversibility).')
-ASSUME = ['dense reach d^L <= 128 (256 thorough); scipy.linalg.expm trusted', 'mixed-saturation complete manifolds are generated but only counted (unjudged)',
+ASSUME = ['known finding F5 at its TDVP call site: a failure (exception or judged clause) is attributed to it - excluded and counted - only when a local Lanczos iteration of the same run returned more vectors than its Krylov space has dimensions (run-time monitor as in C10); runs without that signature are judged in full',
+          'dense reach d^L <= 128 (256 thorough); scipy.linalg.expm trusted', 'mixed-saturation complete manifolds are generated but only counted (unjudged)',
           'reversibility is judged on full-rank representations only: for singular bond matrices the projector-splitting step is not a well-defined map']
 
 
@@ -59,10 +62,33 @@ def check_exact(case, rec):
     # that is outside "Krylov dimension covers the local problem" and was a generator error of an earlier version)
     iters = max_local_dim(psi, two) + 2
     ref = expm(-dt * steps * Hd) @ (v0 / n0)
-    if two:
-        ret = ptn.integrate_local_twosite(H, psi, dt, steps, numiter_lanczos=iters, tol_split=0)
-    else:
-        ret = ptn.integrate_local_singlesite(H, psi, dt, steps, numiter_lanczos=iters)
+    # known finding F5 at its TDVP call site: a failure of this run is attributed to it only if a local Lanczos iteration of this very run
+    # returned more vectors than its Krylov space has dimensions (run-time monitor); runs without that signature are judged in full
+    with LanczosMonitor() as mon:
+        try:
+            if two:
+                ret = ptn.integrate_local_twosite(H, psi, dt, steps, numiter_lanczos=iters, tol_split=0)
+            else:
+                ret = ptn.integrate_local_singlesite(H, psi, dt, steps, numiter_lanczos=iters)
+        except Exception:
+            if mon.past_breakdown and known_listed(ID, KEY_F5):
+                rec.label('lanczos_past_breakdown', 'aborted_after_breakdown')
+                rec.excluded_known += 1
+                return
+            raise
+    if mon.past_breakdown:
+        rec.label('lanczos_past_breakdown')
+    try:
+        _judge_exact(case, rec, ret, psi, v0, n0, ref, dt, steps, L)
+    except Violation:
+        if mon.past_breakdown and known_listed(ID, KEY_F5):
+            rec.label('failure_attributed_to_known_finding')
+            rec.excluded_known += 1
+            return
+        raise
+
+
+def _judge_exact(case, rec, ret, psi, v0, n0, ref, dt, steps, L):
     require(abs(float(np.real(ret)) - n0) <= 1e-10 * n0, 'return value is not the norm of the input state', got=float(np.real(ret)), want=float(n0))
     v1 = dense_state(psi)
     require(np.all(np.isfinite(v1)), 'non-finite evolved state')
@@ -120,11 +146,35 @@ def check_reversible(case, rec):
     dt = dt_of(case, nH)
     steps = case['steps']
     iters = max_local_dim(psi, False) + 2
-    ptn.integrate_local_singlesite(H, psi, dt, steps, numiter_lanczos=iters)
-    v1 = dense_state(psi)
-    n1 = np.linalg.norm(v1)
-    nrm2 = float(np.real(ptn.integrate_local_singlesite(H, psi, -dt, steps, numiter_lanczos=iters)))
+    with LanczosMonitor() as mon:
+        try:
+            ptn.integrate_local_singlesite(H, psi, dt, steps, numiter_lanczos=iters)
+            v1 = dense_state(psi)
+            n1 = np.linalg.norm(v1)
+            nrm2 = float(np.real(ptn.integrate_local_singlesite(H, psi, -dt, steps, numiter_lanczos=iters)))
+        except Exception:
+            if mon.past_breakdown and known_listed(ID, KEY_F5):
+                rec.label('lanczos_past_breakdown', 'aborted_after_breakdown')
+                rec.excluded_known += 1
+                return
+            raise
+    if mon.past_breakdown:
+        rec.label('lanczos_past_breakdown')
     v2 = dense_state(psi)
+    try:
+        _judge_reverse(case, rec, nrm2, n1, v2, v0, smin, dt, steps)
+    except Violation:
+        if mon.past_breakdown and known_listed(ID, KEY_F5):
+            rec.label('failure_attributed_to_known_finding')
+            rec.excluded_known += 1
+            return
+        raise
+    rec.label('dt_' + case['dtkind'], 'model_' + (case['ham'].get('model') or 'random'), 'L=%d' % L)
+    disp = np.linalg.norm(v1 / max(n1, 1e-300) - v0)
+    rec.nontrivial = bool(disp > 1e-3 and max(D) >= 2)
+
+
+def _judge_reverse(case, rec, nrm2, n1, v2, v0, smin, dt, steps):
     require(abs(nrm2 - n1) <= 1e-10 * max(1.0, n1), 'second call does not report the norm of the forward-evolved state', got=nrm2, want=float(n1))
     if case['dtkind'] == 'imag':
         require(abs(nrm2 - 1) <= 1e-10, 'norm reported by the backward call is not one for imaginary dt', nrm2=nrm2)
@@ -132,9 +182,6 @@ def check_reversible(case, rec):
     require(err <= 1e-9 / smin * max(1.0, nrm2), 'forward steps followed by backward steps do not return the initial state', err=err, smin=smin, nrm2=nrm2,
             dt=complex(dt), steps=steps)
     rec.metric('reverse_err_times_smin', err * smin)
-    rec.label('dt_' + case['dtkind'], 'model_' + (case['ham'].get('model') or 'random'), 'L=%d' % L)
-    disp = np.linalg.norm(v1 / max(n1, 1e-300) - v0)
-    rec.nontrivial = bool(disp > 1e-3 and max(D) >= 2)
 
 
 @st.composite
